@@ -835,6 +835,17 @@ pub async fn large_exchange() {
         }
         sum.sample(json!({"size": n, "entries_on_sender": ma.len(), "entries_on_receiver": mb.len()}));
     }
+    // many keyspaces that all need repairing in ONE poller round (the poller asks for the states of all changed keyspaces at
+    // once, MAX_CONCURRENT_REQUESTS = 10 at a time by its own account): counts around that limit
+    let many: Vec<u64> = vec![9, 10, 11, 12, 21, 40];
+    let many_results = futures::future::join_all(many.iter().map(|k| many_keyspaces(*k))).await;
+    for (k, r) in many.iter().zip(many_results) {
+        sum.evaluations += 1;
+        if let Err(why) = r {
+            sum.violation(json!({"property": "C05", "keyspaces_in_one_round": k, "why": [why]}));
+        }
+    }
+    sum.set("keyspaces_repaired_in_one_round", json!(many));
     // the same exchange with one fault in it: the receiving node's storage refuses the first repair write, or the sending
     // node's storage refuses the read behind the first fetch.  The exchange must not count as done: the node's poller
     // (same keyspace tracker, further rounds) repairs later.  Each case on a rig of its own, all at once.
@@ -863,6 +874,46 @@ pub async fn large_exchange() {
     sum.set("removal_sizes", json!(removal_sizes));
     sum.set("entries", docs_total);
     sum.write(&out_path);
+}
+
+/// `k` keyspaces of the sending node, each with a few documents and tombstones of its own, all new to the receiving node (which
+/// holds an older version of one document in every other keyspace); ONE poller round; every keyspace must be equal afterwards.
+async fn many_keyspaces(k: u64) -> Result<(), String> {
+    let rig = Rig::new(&[1, 2]).await;
+    let (a, b) = (&rig.nodes[&1], &rig.nodes[&2]);
+    for i in 0..k {
+        let ks = format!("many-{k}-{i}");
+        let t_old = HLCTimestamp::new(Duration::from_secs(399_000), 0, 2);
+        let t_put = HLCTimestamp::new(Duration::from_secs(400_000 + i), 0, 1);
+        let t_del = HLCTimestamp::new(Duration::from_secs(400_100 + i), 0, 1);
+        let actor_a = a.grp().get_or_create_keyspace(&ks).await;
+        let all: Vec<(u64, HLCTimestamp)> = (1..=3 + i % 4).map(|d| (d, t_put)).collect();
+        let _ = actor_a.send(MultiSet { source: 0, docs: docs_of(&all), ctx: None, _marker: PhantomData::<St> }).await;
+        let _ = actor_a.send(Del { source: 0, doc: DocumentMetadata::new(2, t_del), _marker: PhantomData::<St> }).await;
+        if i % 2 == 1 {
+            let actor_b = b.grp().get_or_create_keyspace(&ks).await;
+            let _ = actor_b.send(MultiSet { source: 0, docs: docs_of(&[(1, t_old), (2, t_old)]), ctx: None, _marker: PhantomData::<St> }).await;
+        }
+    }
+    let mut members = BTreeMap::new();
+    members.insert(a.id, a.addr);
+    repair::repair_round(&b.grp(), &b.network, &members).await;
+    let mut apart = vec![];
+    for i in 0..k {
+        let ks = format!("many-{k}-{i}");
+        let mut ma: Vec<(u64, HLCTimestamp, bool)> = a.store.iter_metadata(&ks).await.unwrap().collect();
+        let mut mb: Vec<(u64, HLCTimestamp, bool)> = b.store.iter_metadata(&ks).await.unwrap().collect();
+        ma.sort();
+        mb.sort();
+        if ma != mb {
+            apart.push(i);
+        }
+    }
+    if apart.is_empty() {
+        Ok(())
+    } else {
+        Err(format!("after one poller round against a peer with {k} keyspaces that all differ, {} keyspaces are still apart (numbers {:?})", apart.len(), apart))
+    }
 }
 
 /// One exchange of `n` documents (and a tombstone) with a fault of `kind` in it, then up to four more poller rounds with the
